@@ -20,7 +20,13 @@ def one(job):
     repo = os.path.join(wd, 'repo')
     out = os.path.join(wd, 'out')
     os.makedirs(out)
-    r = sh('git', '-C', R, 'worktree', 'add', '--detach', '-f', repo, 'HEAD')
+    import time
+    for attempt in range(4):
+        r = sh('git', '-C', R, 'worktree', 'add', '--detach', '-f', repo, 'HEAD')
+        if r.returncode == 0:
+            break
+        time.sleep(1 + attempt)       # concurrent `worktree add` calls occasionally collide on git's bookkeeping
+        shutil.rmtree(repo, ignore_errors=True)
     res = {'id': mid, 'alarms': {}, 'error': None}
     try:
         if r.returncode != 0:
